@@ -339,7 +339,7 @@ def run(ctx: Any) -> None:
 
     thorough = ctx.tier == "thorough"
     rng = ctx.rng
-    n_cases = 1500 if thorough else 150
+    n_cases = 700 if thorough else 150
     cases: list[dict[str, Any]] = []
     pid = 1000
     for name, kind, prog, sc, cfg in WITNESSES:
@@ -390,7 +390,7 @@ def run(ctx: Any) -> None:
         repl = {"program": prog, "script": sc, "on_log": mode, "kind": kind}
         # ---- socket family: all must agree exactly (same code path, different byte channel)
         traces: dict[str, list[Any]] = {}
-        kinds = sockets + (["subprocess"] if thorough and ci < 60 else [])
+        kinds = sockets + (["subprocess"] if thorough and ci < 25 else [])
         for k in kinds:
             traces[k] = norm(I.run_case(k, None, sc, on_log=mode, timeout=8.0))
             ctx.count("impl_runs")
@@ -404,6 +404,19 @@ def run(ctx: Any) -> None:
         cfgs = http_cfgs if "witness" not in c else [{"compression": None, "externalize": False, **c["wcfg"]}]
         if c.get("fault"):
             cfgs = [{"max_response_bytes": cap, "compression": None, "externalize": False} for cap in (None, 1, BIG)]
+        elif thorough and "witness" not in c:
+            # thorough: more programs, fewer configurations per program -- every (cap, codec, externalisation) combination is
+            # still covered, rotating over the cases: the robust caps get two codec/externalisation combinations each (so the
+            # "same cap, different wrapper" check keeps running), the intermediate caps one
+            combos = [(comp, ext) for comp in comps for ext in (False, True)]
+            cfgs = []
+            for j, cap in enumerate((None, 1, BIG)):
+                for d in (0, 1 + (ci % (len(combos) - 1))):
+                    comp, ext = combos[(ci + j + d) % len(combos)]
+                    cfgs.append({"max_response_bytes": cap, "compression": comp, "externalize": ext})
+            for j, cap in enumerate(c_ for c_ in caps if c_ not in (None, 1, BIG)):
+                comp, ext = combos[(ci + j) % len(combos)]
+                cfgs.append({"max_response_bytes": cap, "compression": comp, "externalize": ext})
         hbycap: dict[Any, list[Any]] = {}
         for cfg in cfgs:
             tr = norm(I.run_case("http", cfg, sc, on_log=mode, timeout=8.0))
